@@ -1625,6 +1625,11 @@ func runSelCmd(sc selCmd, sel string, idx int, cfg string) *outcome {
 		fail("file-variant-no-output:sel-"+sc.name, err.Error())
 		return o
 	}
+	if len(sr.stdout) == 0 || len(fb) == 0 {
+		// exit status 0 but no document: "nothing" is only allowed together with a non-zero exit status
+		fail("empty-selection-exits-zero-without-document:"+sc.name, fmt.Sprintf("exit 0 in both modes; stdout %d bytes, output file %d bytes; file-mode stderr: %s", len(sr.stdout), len(fb), trunc(string(fr.stderr), 200)))
+		return o
+	}
 	fn, e1 := normPDF(fb, "", "")
 	sn, e2 := normPDF(sr.stdout, "", "")
 	if e1 != nil || e2 != nil {
@@ -1809,7 +1814,10 @@ func main() {
 	for ci, sc := range selCmds {
 		for si, sel := range selections {
 			n++
-			if !thorough && !(sc.quick && (si+ci+int(r.Seed))%4 == 0) {
+			if !thorough && !(sc.quick && ((si+ci+int(r.Seed))%4 == 0 || sel == "7")) {
+				continue
+			}
+			if thorough && !sc.quick && (si+ci+int(r.Seed))%2 != 0 {
 				continue
 			}
 			sc, sel, k := sc, sel, n
